@@ -363,6 +363,26 @@ def run_item(ctx, item):
             starts = sorted({int(n.start.t) for n in p.notes})
             for _ in range(rng.randint(1, 2)):
                 p.add(S.Tempo(rng.choice([60, 72, 96, 120, 144]), "q"), rng.choice(starts) if starts else 0)
+    # a tacet / conductor part: rests and tempo marks only, in divisions that do not divide those of the sounding parts
+    if len(meta0["divs"]) == 1 and rng.random() < 0.3:
+        q1 = meta0["divs"][0][1]
+        sounding_lcm = math.lcm(*[q for m_ in metas for _, q in m_["divs"]])
+        # (a MIDI file holds ticks per quarter up to 32767; minimum_ppq may double the lcm a few times)
+        primes = [pr for pr in (7, 11, 13) if sounding_lcm % pr != 0 and math.lcm(sounding_lcm, q1 * pr) <= 4000]
+        if primes:
+            k_ = rng.choice(primes)
+            tac = S.Part(f"P{len(parts) + 1}", "tacet", quarter_duration=q1 * k_)
+            for ts in timemaps.objects_of(first, S.TimeSignature):
+                tac.add(S.TimeSignature(ts.beats, ts.beat_type), int(ts.start.t) * k_)
+            for m_ in sorted(timemaps.objects_of(first, S.Measure), key=lambda m__: m__.start.t):
+                tac.add(S.Measure(number=m_.number), int(m_.start.t) * k_, int(m_.end.t) * k_)
+                tac.add(S.Rest(id=f"tr{m_.number}", voice=1, staff=1), int(m_.start.t) * k_, int(m_.end.t) * k_)
+            last_ = int(first.last_point.t) * k_
+            for _ in range(rng.randint(0, 2)):
+                tac.add(S.Tempo(rng.choice([50, 66, 88, 132]), "q"), rng.randrange(0, max(1, last_)))
+            parts.append(tac)
+            metas.append({"divs": [(0, q1 * k_)], "tuplets": 0, "measures": meta0["measures"], "notes": 0, "pickup": meta0["pickup"]})
+            ctx.extra["scores_with_a_tacet_part_in_other_divisions"] += 1
     structure = parts
     if n_parts >= 2 and rng.random() < 0.5:
         g = S.PartGroup("brace", "grp")
